@@ -75,44 +75,30 @@ private theorem floatChecked_noFuel (c : FCls) (r : PV) : NoFuel (floatChecked c
 private theorem getValue_noFuel (vs : List (String × PV)) (s : String) : NoFuel (getValue vs s) := by
   unfold getValue NoFuel; split <;> simp
 
+private theorem parseOut_noFuel (o : ParseOut) : NoFuel o.toR := by
+  cases o <;> simp [ParseOut.toR, NoFuel]
+
 private theorem coerceInt_noFuel (v : JV) : NoFuel (coerceInt v) := by
-  cases v with
-  | float t i c => cases i <;> cases c <;> simp [coerceInt, NoFuel] <;> exact rangeChecked_noFuel _ _
-  | str s a b =>
-    simp only [coerceInt]
-    split
-    · simp [NoFuel]
-    · split
-      · exact rangeChecked_noFuel _ _
-      · split
-        · exact rangeChecked_noFuel _ _
-        · simp [NoFuel]
-  | bool b => exact rangeChecked_noFuel _ _
-  | int n => exact rangeChecked_noFuel _ _
-  | null => simp [coerceInt, NoFuel]
-  | list l => simp [coerceInt, NoFuel]
-  | obj k => simp [coerceInt, NoFuel]
+  unfold coerceInt
+  repeat' split
+  all_goals first
+    | exact rangeChecked_noFuel _ _
+    | simp [NoFuel]
 
 private theorem coerceFloat_noFuel (v : JV) : NoFuel (coerceFloat v) := by
-  cases v with
-  | str s a b =>
-    simp only [coerceFloat]
-    split
-    · simp [NoFuel]
-    · split
-      · exact floatChecked_noFuel _ _
-      · simp [NoFuel]
-  | bool b => exact floatChecked_noFuel _ _
-  | int n => exact floatChecked_noFuel _ _
-  | float t i c => exact floatChecked_noFuel _ _
-  | null => simp [coerceFloat, NoFuel]
-  | list l => simp [coerceFloat, NoFuel]
-  | obj k => simp [coerceFloat, NoFuel]
+  unfold coerceFloat
+  repeat' split
+  all_goals first
+    | exact floatChecked_noFuel _ _
+    | simp [NoFuel]
 
 private theorem parseLiteral_noFuel (k : NamedT) (l : Lit) : NoFuel (parseLiteral k l) := by
   unfold parseLiteral
-  cases k <;> cases l <;> simp [NoFuel] <;> (try split) <;>
-    first | exact rangeChecked_noFuel _ _ | exact floatChecked_noFuel _ _ | simp [NoFuel]
+  repeat' split
+  all_goals first
+    | exact rangeChecked_noFuel _ _
+    | exact floatChecked_noFuel _ _
+    | simp [NoFuel]
 
 /-- `coerce_value` body: no fuel error if the recursive calls of strictly smaller measure have none -/
 private theorem coerceCore_noFuel {reg : Reg} {rec : Ty → JV → R} {t : Ty} {v : JV}
@@ -151,7 +137,7 @@ private theorem coerceCore_noFuel {reg : Reg} {rec : Ty → JV → R} {t : Ty} {
         | string => cases v <;> simp [parseString, NoFuel]
         | boolean => cases v <;> simp [parseBool, NoFuel]
         | id => cases v <;> simp [parseId, NoFuel]
-        | custom => simp [NoFuel]
+        | custom => exact parseOut_noFuel _
         | enum vs =>
           cases v <;> simp [NoFuel]
           exact getValue_noFuel _ _
@@ -257,7 +243,7 @@ private theorem vfaCore_noFuel {reg : Reg} {rec : Ty → Lit → R} {t : Ty} {l 
         | string => simp only; split <;> first | exact parseLiteral_noFuel _ _ | simp [NoFuel]
         | boolean => simp only; split <;> first | exact parseLiteral_noFuel _ _ | simp [NoFuel]
         | id => simp only; split <;> first | exact parseLiteral_noFuel _ _ | simp [NoFuel]
-        | custom => simp only; split <;> first | exact parseLiteral_noFuel _ _ | simp [NoFuel]
+        | custom => simp only; split <;> first | exact parseOut_noFuel _ | simp [NoFuel]
 
 /-- **fuel_sufficient (literal route)** -/
 theorem valueFromAst_fuel_sufficient (reg : Reg) (vars : Option (List (String × PV))) : ∀ (fuel : Nat) (ty : Ty) (l : Lit),
@@ -320,9 +306,9 @@ theorem literal_sound_total {reg : Reg} (hreg : RegOK reg) (vars : Option (List 
   literal_sound hreg vars _ ty l pv hwf hfit h
 
 /-- **literal_variable_equiv**, fuel-free: `value_from_ast(astOfJson j) ` and `coerce_value(j)` yield the same value or both raise -/
-theorem literal_variable_equiv_total (reg : Reg) (vars : Option (List (String × PV))) (ty : Ty) (j : JV) (l : Lit)
+theorem literal_variable_equiv_total (reg : Reg) (hagree : CustomAgree reg) (vars : Option (List (String × PV))) (ty : Ty) (j : JV) (l : Lit)
     (h : AstOfJson reg ty j l) : (valueFromAstT reg vars ty l).toOption = (coerceValueT reg ty j).toOption := by
-  have hm := literal_variable_equiv reg vars (max (fuelFor reg ty (sizeOf l)) (fuelFor reg ty (sizeOf j))) ty j l h
+  have hm := literal_variable_equiv reg hagree vars (max (fuelFor reg ty (sizeOf l)) (fuelFor reg ty (sizeOf j))) ty j l h
   rwa [valueFromAst_eq_total reg vars _ ty l (Nat.le_max_left _ _), coerceValue_eq_total reg _ ty j (Nat.le_max_right _ _)] at hm
 
 /-- **int_full_range**, fuel-free -/
